@@ -8,6 +8,7 @@ import (
 	"path/filepath"
 	"runtime/debug"
 	"sort"
+	"strings"
 	"sync"
 	"time"
 
@@ -223,6 +224,9 @@ func (e *Env) onEvent(ev *bolt.VerifEvent) error {
 		if err := e.OnEvent(e, ev); err != nil {
 			return err
 		}
+	}
+	if e.FailAt > 0 && e.EventN == e.FailAt && e.FailKinds != "" && !strings.Contains(e.FailKinds, kind+",") {
+		e.FailAt++ // not a call of the kinds to fail: the next one is the candidate
 	}
 	if e.FailAt > 0 && e.EventN == e.FailAt {
 		e.Failed = &IOEvent{Kind: kind, Off: ev.Off, Size: ev.Size}
@@ -442,8 +446,16 @@ func (e *Env) apply(op Op) *Violation {
 				return Violf("close before reopen: %v", err)
 			}
 		}
+		hadFault := e.Failed != nil
 		if err := e.Open(*op.Opts); err != nil {
-			return Violf("open(%+v): %v", *op.Opts, err)
+			// an armed fault that hits one of Open's own I/O calls makes Open fail cleanly; a second Open must work
+			if hadFault || e.Failed == nil || !e.AllowCommitErr {
+				return Violf("open(%+v): %v", *op.Opts, err)
+			}
+			e.Label("fault-in-open")
+			if err := e.Open(*op.Opts); err != nil {
+				return Violf("open(%+v) after an Open that failed on an injected fault: %v", *op.Opts, err)
+			}
 		}
 		e.Label("open")
 		if !e.SkipDumpAfter {
@@ -459,6 +471,15 @@ func (e *Env) apply(op Op) *Violation {
 		if err := e.CloseDB(); err != nil {
 			return Violf("close: %v", err)
 		}
+		return nil
+	case OpArmFault:
+		e.FailAt = e.EventN + int(op.U)
+		e.Failed = nil
+		e.FailKinds = op.Note
+		if e.FailKinds == "" {
+			e.FailKinds = "W,S,T,GS,"
+		}
+		e.Label("fault-armed")
 		return nil
 	case OpBeginRW:
 		if e.RW != nil || e.DB == nil {
